@@ -40,6 +40,32 @@ fn same(a: &[f64], b: &[f64]) -> bool {
     a.len() == b.len() && a.iter().zip(b.iter()).all(|(x, y)| x == y || (x.is_nan() && y.is_nan()))
 }
 
+/// the output for a row is a function of that row (and the fitted model) only: a batch with the rows in
+/// another order, some of them repeated, gives the same per-row outputs (no state carried from row to row or
+/// from call to call). `width` = outputs per row.
+fn batch_independent(c: &mut Case, name: &str, xq: &Mat, o1: &[f64], run: impl Fn(&DM) -> Result<Vec<f64>, smartcore::error::Failed>) {
+    let nq = xq.r;
+    if nq == 0 || o1.len() % nq != 0 {
+        return;
+    }
+    let width = o1.len() / nq;
+    // reversed order, then two repeated rows
+    let mut order: Vec<usize> = (0..nq).rev().collect();
+    order.push(c.rng.below(nq));
+    order.push(c.rng.below(nq));
+    let x2 = Mat::from_fn(order.len(), xq.c, |i, j| xq.at(order[i], j));
+    let x2m: DM = to_dense(&x2);
+    if let Some(Ok(o2)) = c.must(&format!("{}::use(reordered batch)", name), || run(&x2m)) {
+        let scale = o1.iter().fold(0.0f64, |m, v| if v.is_finite() { m.max(v.abs()) } else { m });
+        let ok = o2.len() == order.len() * width
+            && order.iter().enumerate().all(|(i, src)| (0..width).all(|k| {
+                let (a, b) = (o1[src * width + k], o2[i * width + k]);
+                a == b || (a.is_nan() && b.is_nan()) || (a - b).abs() <= 1e-10 * scale
+            }));
+        c.check(&format!("sequence.row-output-independent-of-batch:{}", name), ok, name, || format!("rows {:?} of the query batch give {:?}; the batch itself gave {:?} ({} outputs per row)", order, o2, o1, width));
+    }
+}
+
 /// fit → store → restore → use: outputs of the restored model equal those of the fitted one
 fn restored_same<M: serde::Serialize + serde::de::DeserializeOwned>(c: &mut Case, name: &str, m1: &M, o1: &[f64], run: impl Fn(&M) -> Result<Vec<f64>, smartcore::error::Failed>) {
     let json = c.rng.bool(0.5);
@@ -71,12 +97,13 @@ fn restored_same<M: serde::Serialize + serde::de::DeserializeOwned>(c: &mut Case
 
 /// inherent predict vs Predictor::predict on the same model (and on a model fitted through the trait)
 macro_rules! supervised {
-    ($c:expr, $name:expr, $E:ty, $params:expr, $x:expr, $y:expr, $xq:expr, trait_fit) => {{
+    ($c:expr, $name:expr, $E:ty, $params:expr, $x:expr, $y:expr, $xq:expr, $xqm:expr, trait_fit) => {{
         let p = $params;
         if let Some(Ok(m1)) = $c.must(&format!("{}::fit", $name), || <$E>::fit($x, $y, p.clone())) {
             if let (Some(Ok(o1)), Some(Ok(o2))) = ($c.must(&format!("{}::predict", $name), || m1.predict($xq)), $c.must(&format!("{}::predict(trait)", $name), || Predictor::predict(&m1, $xq))) {
                 $c.check(&format!("api.predictor=inherent:{}", $name), same(&o1, &o2), $name, || format!("inherent predict {:?}, api::Predictor::predict {:?}", o1, o2));
                 restored_same($c, $name, &m1, &o1, |m| m.predict($xq));
+                batch_independent($c, $name, $xqm, &o1, |q| m1.predict(q));
                 if let Some(Ok(m2)) = $c.must(&format!("{}::fit(trait)", $name), || <$E as SupervisedEstimator<DM, Vec<f64>, _>>::fit($x, $y, p.clone())) {
                     if let Some(Ok(o3)) = $c.must(&format!("{}::predict(trait-fitted)", $name), || Predictor::predict(&m2, $xq)) {
                         $c.check(&format!("api.supervised-estimator=inherent:{}", $name), same(&o1, &o3), $name, || format!("inherent fit+predict {:?}, api::SupervisedEstimator::fit + api::Predictor::predict {:?}", o1, o3));
@@ -86,12 +113,13 @@ macro_rules! supervised {
             }
         }
     }};
-    ($c:expr, $name:expr, $E:ty, $params:expr, $x:expr, $y:expr, $xq:expr) => {{
+    ($c:expr, $name:expr, $E:ty, $params:expr, $x:expr, $y:expr, $xq:expr, $xqm:expr) => {{
         let p = $params;
         if let Some(Ok(m1)) = $c.must(&format!("{}::fit", $name), || <$E>::fit($x, $y, p.clone())) {
             if let (Some(Ok(o1)), Some(Ok(o2))) = ($c.must(&format!("{}::predict", $name), || m1.predict($xq)), $c.must(&format!("{}::predict(trait)", $name), || Predictor::predict(&m1, $xq))) {
                 $c.check(&format!("api.predictor=inherent:{}", $name), same(&o1, &o2), $name, || format!("inherent predict {:?}, api::Predictor::predict {:?}", o1, o2));
                 restored_same($c, $name, &m1, &o1, |m| m.predict($xq));
+                batch_independent($c, $name, $xqm, &o1, |q| m1.predict(q));
                 $c.nontrivial();
             }
         }
@@ -127,32 +155,32 @@ pub fn case(c: &mut Case, pid: &str) {
         "C04" => {
             let alg = if flag { KNNAlgorithmName::CoverTree } else { KNNAlgorithmName::LinearSearch };
             let wf = if seed % 2 == 0 { KNNWeightFunction::Uniform } else { KNNWeightFunction::Distance };
-            supervised!(c, "KNNClassifier", KNNClassifier<f64, _>, KNNClassifierParameters::default().with_k(k).with_algorithm(alg.clone()).with_weight(wf.clone()), &x, &yc, &xq);
-            supervised!(c, "KNNRegressor", KNNRegressor<f64, _>, KNNRegressorParameters::default().with_k(k).with_algorithm(alg).with_weight(wf), &x, &yr, &xq);
+            supervised!(c, "KNNClassifier", KNNClassifier<f64, _>, KNNClassifierParameters::default().with_k(k).with_algorithm(alg.clone()).with_weight(wf.clone()), &x, &yc, &xq, &qm);
+            supervised!(c, "KNNRegressor", KNNRegressor<f64, _>, KNNRegressorParameters::default().with_k(k).with_algorithm(alg).with_weight(wf), &x, &yr, &xq, &qm);
         }
         "C05" => {
-            supervised!(c, "DecisionTreeClassifier", DecisionTreeClassifier<f64>, DecisionTreeClassifierParameters::default().with_min_samples_leaf(k - 1), &x, &yc, &xq);
-            supervised!(c, "DecisionTreeRegressor", DecisionTreeRegressor<f64>, DecisionTreeRegressorParameters::default().with_min_samples_leaf(k - 1), &x, &yr, &xq);
+            supervised!(c, "DecisionTreeClassifier", DecisionTreeClassifier<f64>, DecisionTreeClassifierParameters::default().with_min_samples_leaf(k - 1), &x, &yc, &xq, &qm);
+            supervised!(c, "DecisionTreeRegressor", DecisionTreeRegressor<f64>, DecisionTreeRegressorParameters::default().with_min_samples_leaf(k - 1), &x, &yr, &xq, &qm);
         }
         "C06" => {
-            supervised!(c, "RandomForestClassifier", RandomForestClassifier<f64>, RandomForestClassifierParameters::default().with_n_trees(4).with_seed(seed), &x, &yc, &xq);
-            supervised!(c, "RandomForestRegressor", RandomForestRegressor<f64>, RandomForestRegressorParameters::default().with_n_trees(4).with_seed(seed), &x, &yr, &xq);
+            supervised!(c, "RandomForestClassifier", RandomForestClassifier<f64>, RandomForestClassifierParameters::default().with_n_trees(4).with_seed(seed), &x, &yc, &xq, &qm);
+            supervised!(c, "RandomForestRegressor", RandomForestRegressor<f64>, RandomForestRegressorParameters::default().with_n_trees(4).with_seed(seed), &x, &yr, &xq, &qm);
         }
         "C07" => {
-            supervised!(c, "LinearRegression", LinearRegression<f64, DM>, LinearRegressionParameters::default(), &x, &yr, &xq, trait_fit);
-            supervised!(c, "RidgeRegression", RidgeRegression<f64, DM>, RidgeRegressionParameters::default().with_alpha(alpha).with_normalize(flag), &x, &yr, &xq, trait_fit);
+            supervised!(c, "LinearRegression", LinearRegression<f64, DM>, LinearRegressionParameters::default(), &x, &yr, &xq, &qm, trait_fit);
+            supervised!(c, "RidgeRegression", RidgeRegression<f64, DM>, RidgeRegressionParameters::default().with_alpha(alpha).with_normalize(flag), &x, &yr, &xq, &qm, trait_fit);
         }
         "C08" => {
-            supervised!(c, "Lasso", Lasso<f64, DM>, LassoParameters::default().with_alpha(alpha * 0.1).with_normalize(flag), &x, &yr, &xq, trait_fit);
-            supervised!(c, "ElasticNet", ElasticNet<f64, DM>, ElasticNetParameters::default().with_alpha(alpha * 0.1).with_normalize(flag), &x, &yr, &xq, trait_fit);
+            supervised!(c, "Lasso", Lasso<f64, DM>, LassoParameters::default().with_alpha(alpha * 0.1).with_normalize(flag), &x, &yr, &xq, &qm, trait_fit);
+            supervised!(c, "ElasticNet", ElasticNet<f64, DM>, ElasticNetParameters::default().with_alpha(alpha * 0.1).with_normalize(flag), &x, &yr, &xq, &qm, trait_fit);
         }
         "C09" => {
-            supervised!(c, "LogisticRegression", LogisticRegression<f64, DM>, LogisticRegressionParameters::default().with_alpha(alpha), &x, &yc, &xq);
+            supervised!(c, "LogisticRegression", LogisticRegression<f64, DM>, LogisticRegressionParameters::default().with_alpha(alpha), &x, &yc, &xq, &qm);
         }
         "C10" => {
-            supervised!(c, "SVR", SVR<f64, DM, _>, SVRParameters::default().with_c(alpha * 5.0).with_eps(0.1).with_kernel(Kernels::rbf(0.3)), &x, &yr, &xq);
+            supervised!(c, "SVR", SVR<f64, DM, _>, SVRParameters::default().with_c(alpha * 5.0).with_eps(0.1).with_kernel(Kernels::rbf(0.3)), &x, &yr, &xq, &qm);
             // the SVC trainer draws its visiting order from an unseeded RNG: only the two predict paths of one model
-            supervised!(c, "SVC", SVC<f64, DM, _>, SVCParameters::default().with_c(alpha * 5.0).with_kernel(Kernels::linear()), &x, &yc, &xq);
+            supervised!(c, "SVC", SVC<f64, DM, _>, SVCParameters::default().with_c(alpha * 5.0).with_kernel(Kernels::linear()), &x, &yc, &xq, &qm);
         }
         "C12" => {
             let p = KMeansParameters::default().with_k(k);
@@ -160,6 +188,7 @@ pub fn case(c: &mut Case, pid: &str) {
                 if let (Some(Ok(o1)), Some(Ok(o2))) = (c.must("KMeans::predict", || m1.predict(&xq)), c.must("KMeans::predict(trait)", || Predictor::predict(&m1, &xq))) {
                     c.check("api.predictor=inherent:KMeans", same(&o1, &o2), "KMeans", || format!("inherent predict {:?}, api::Predictor::predict {:?}", o1, o2));
                     restored_same(c, "KMeans", &m1, &o1, |m| m.predict(&xq));
+                    batch_independent(c, "KMeans", &qm, &o1, |q| m1.predict(q));
                     c.nontrivial();
                 }
             }
@@ -175,6 +204,7 @@ pub fn case(c: &mut Case, pid: &str) {
                 if let (Some(Ok(o1)), Some(Ok(o2))) = (c.must("DBSCAN::predict", || m1.predict(&xq)), c.must("DBSCAN::predict(trait)", || Predictor::predict(&m1, &xq))) {
                     c.check("api.predictor=inherent:DBSCAN", same(&o1, &o2), "DBSCAN", || format!("inherent predict {:?}, api::Predictor::predict {:?}", o1, o2));
                     restored_same(c, "DBSCAN", &m1, &o1, |m| m.predict(&xq));
+                    batch_independent(c, "DBSCAN", &qm, &o1, |q| m1.predict(q));
                     c.nontrivial();
                 }
             }
@@ -187,6 +217,7 @@ pub fn case(c: &mut Case, pid: &str) {
                     let (a, b, d) = (crate::from_m(&o1), crate::from_m(&o2), crate::from_m(&o3));
                     c.check("api.transformer=inherent:PCA", a.r == b.r && same(&a.d, &b.d), "PCA", || "api::Transformer::transform differs from the inherent transform".to_string());
                     restored_same(c, "PCA", &m1, &a.d, |m| m.transform(&xq).map(|t| crate::from_m(&t).d));
+                    batch_independent(c, "PCA", &qm, &a.d, |q| m1.transform(q).map(|t| crate::from_m(&t).d));
                     c.check("api.unsupervised-estimator=inherent:PCA", a.r == d.r && same(&a.d, &d.d), "PCA", || "a model fitted through api::UnsupervisedEstimator transforms differently".to_string());
                     c.nontrivial();
                 }
@@ -199,6 +230,7 @@ pub fn case(c: &mut Case, pid: &str) {
                         let (a, b, d) = (crate::from_m(&o1), crate::from_m(&o2), crate::from_m(&o3));
                         c.check("api.transformer=inherent:SVD", a.r == b.r && same(&a.d, &b.d), "SVD", || "api::Transformer::transform differs from the inherent transform".to_string());
                         restored_same(c, "SVD", &m1, &a.d, |m| m.transform(&xq).map(|t| crate::from_m(&t).d));
+                        batch_independent(c, "SVD", &qm, &a.d, |q| m1.transform(q).map(|t| crate::from_m(&t).d));
                         c.check("api.unsupervised-estimator=inherent:SVD", a.r == d.r && same(&a.d, &d.d), "SVD", || "a model fitted through api::UnsupervisedEstimator transforms differently".to_string());
                     }
                 }
